@@ -114,7 +114,11 @@ impl InkList {
             let mut names = Vec::new();
 
             for k in self.items.keys() {
-                names.push(k.get_origin_name().unwrap().clone());
+                // An item that names no list (possible in hand-made or damaged
+                // documents) simply contributes no origin.
+                if let Some(origin_name) = k.get_origin_name() {
+                    names.push(origin_name.clone());
+                }
             }
 
             return names;
